@@ -75,6 +75,10 @@ func (*footnoteASTTransformer).Transform
   loop 1 inv forall j int :: (0 <= j && j <= rangeindex) ==> (fnlist[j].RefCount == mval(counter, fnlist[j].Index) && 0 <= fnlist[j].RefIndex && mapHas(refCounter, fnlist[j].Index) && fnlist[j].RefIndex < mapGet(refCounter, fnlist[j].Index))
   loop 1 inv forall j int, k int {fnlist[j], fnlist[k]} :: (0 <= j && j < k && k <= rangeindex && fnlist[j].Index == fnlist[k].Index) ==> fnlist[j].RefIndex < fnlist[k].RefIndex
   callassert [unreferencedRemoved] ast.(*BaseNode).SortChildren#1: WF() && refdBefore(asnode(list), nil) && kidsAreFn(asnode(list))
+  // ... and ONLY those: a definition that has been referenced (Index >= 0) is still in the list when it is sorted
+  callassert [referencedKept] ast.(*BaseNode).SortChildren#1: forall v addr {par(v)} :: (old(par(v)) == old(fnList()) && v != nil && fnIndex(v) >= 0) ==> par(v) == asnode(list)
+  loop 2 inv [referencedKept] forall v addr {par(v)} :: (old(par(v)) == old(fnList()) && v != nil && fnIndex(v) >= 0) ==> par(v) == asnode(list)
+  loop 3 inv [referencedKept] forall v addr {par(v)} :: (old(par(v)) == old(fnList()) && v != nil && fnIndex(v) >= 0) ==> par(v) == asnode(list)
   loop 2 inv WF() && list != nil && asnode(list) == old(fnList()) && par(asnode(list)) == old(par(fnList()))
   loop 2 inv footnote == nil || isKidOf(footnote, asnode(list))
   loop 2 inv kidsAreFn(asnode(list)) && refdBefore(asnode(list), footnote)
